@@ -36,9 +36,9 @@ class ScopeTasksDriver:
         if name == "Open":
             self.nsid += 1
             if args[1]:
-                w.do(t, "ascope", self.nsid, [], None, None)
+                w.do(t, "ascope", self.nsid, [("A", 1 + self.nsid % 2)], None, None)      # every scope re-provides the state type its enclosing scope holds
             else:
-                w.do(t, "sscope", self.nsid, [], None)
+                w.do(t, "sscope", self.nsid, [("A", 1 + self.nsid % 2)], None)
         elif name == "Spawn":
             w.do(t, "spawn", str(args[1]))
         elif name == "SetWill":
